@@ -1,6 +1,7 @@
 (** C14 — executable model of the epochs clock
     (x/epochs/abci.go BeginBlocker + shouldEpochStart, x/epochs/keeper/epoch.go AddEpochInfo,
-     x/epochs/types/hooks.go MultiEpochHooks).  No proofs in this file.
+     x/epochs/genesis.go InitGenesis + x/epochs/types/genesis.go GenesisState.Validate (module (re-)initialisation
+     at any point of a history), x/epochs/types/hooks.go MultiEpochHooks).  No proofs in this file.
 
     Times are integers (nanoseconds since the Unix epoch, any sign), durations are integers
     (time.Duration, any sign: Validate only rejects 0), epoch numbers and heights are integers
@@ -75,24 +76,84 @@ Definition add_epoch (s : state) (ct ch : Z) (a : add_args) : state * bool :=
                   e_dur := a_dur a; e_cur := a_cur a; e_cur_start := a_cur_start a;
                   e_height := ch; e_started := a_started a |} s, true).
 
+(** the info AddEpochInfo stores *)
+Definition added (ct ch : Z) (a : add_args) : einfo :=
+  {| e_id := a_id a; e_start := match a_start a with Some x => x | None => ct end; e_dur := a_dur a;
+     e_cur := a_cur a; e_cur_start := a_cur_start a; e_height := ch; e_started := a_started a |}.
+
+(* ---------------------------------------------------------------- module (re-)initialisation *)
+
+(** x/epochs/genesis.go InitGenesis under a context with block time [ct] / height [ch] and a genesis state [gs]
+    (the list of its EpochInfos) — on ANY store, empty (chain start) or live (a software upgrade whose handler
+    calls mm.RunMigrations with a version map without the module's entry: the SDK then calls the module's
+    InitGenesis with DefaultGenesis in the middle of the chain):
+
+        GenesisState.Validate (every EpochInfo.Validate, identifiers pairwise distinct) — else nothing is written;
+        for each epoch in order: AddEpochInfo — the first error (an identifier that already exists) stops the
+        loop; what was added before stays.
+
+    [guard] is the variant switch: [true] = this tree (every write goes through AddEpochInfo, whose existence check
+    refuses a stored identifier — Gen/C14Facts.v [initgenesis_keeper_calls], [add_exists_guard_before_insert]);
+    [false] = InitGenesis writes every epoch directly under its identifier (no existence check). *)
+Definition args_valid (a : add_args) : bool := negb (a_empty a || (a_dur a =? 0) || (a_height a <? 0)).
+
+Fixpoint arg_ids_distinct (l : list add_args) : bool :=
+  match l with
+  | [] => true
+  | a :: r => negb (existsb (fun b => Nat.eqb (a_id b) (a_id a)) r) && arg_ids_distinct r
+  end.
+
+Definition genesis_valid (gs : list add_args) : bool := forallb args_valid gs && arg_ids_distinct gs.
+
+(** collections.Map.Insert: overwrite the info stored under the identifier, or insert it in key order *)
+Fixpoint upsert (x : einfo) (s : state) : state :=
+  match s with
+  | [] => [x]
+  | e :: r => if Nat.eqb (e_id e) (e_id x) then x :: r
+              else if Nat.ltb (e_id x) (e_id e) then x :: e :: r else e :: upsert x r
+  end.
+
+Fixpoint add_all (guard : bool) (s : state) (ct ch : Z) (gs : list add_args) : state * bool :=
+  match gs with
+  | [] => (s, true)
+  | a :: r =>
+      if guard then
+        let '(s1, ok) := add_epoch s ct ch a in if ok then add_all guard s1 ct ch r else (s1, false)
+      else add_all guard (upsert (added ct ch a) s) ct ch r
+  end.
+
+Definition init_genesis (guard : bool) (s : state) (ct ch : Z) (gs : list add_args) : state * bool :=
+  if genesis_valid gs then add_all guard s ct ch gs else (s, false).
+
 Inductive op :=
 | Block (t h : Z)                 (* epochs.BeginBlocker under a context with this time / height *)
-| Add (ct ch : Z) (a : add_args). (* keeper.AddEpochInfo under a context with this time / height *)
+| Add (ct ch : Z) (a : add_args)  (* keeper.AddEpochInfo under a context with this time / height *)
+| Init (via_module : bool) (ct ch : Z) (gs : list add_args).
+    (* InitGenesis with genesis state [gs] under a context with this time / height, at any point of a history.
+       via_module = false: the function epochs.InitGenesis (its error is observed);
+       via_module = true: AppModule.InitGenesis (called by InitChain and by RunMigrations for a module missing in the
+       version map), which DISCARDS the error — the caller always sees success *)
 
 (** what one op publishes: success flag, epoch infos afterwards, hook calls *)
 Record out := { o_ok : bool; o_infos : state; o_hooks : list hook }.
 
-Definition step (s : state) (o : op) : state * out :=
+(** [guard]: the variant switch of [init_genesis]; [step] / [run] are this tree ([guard = true]) *)
+Definition step_v (guard : bool) (s : state) (o : op) : state * out :=
   match o with
   | Block t h => let '(s', l) := begin_block s t h in (s', {| o_ok := true; o_infos := s'; o_hooks := l |})
   | Add ct ch a => let '(s', ok) := add_epoch s ct ch a in (s', {| o_ok := ok; o_infos := s'; o_hooks := [] |})
+  | Init via ct ch gs =>
+      let '(s', ok) := init_genesis guard s ct ch gs in (s', {| o_ok := via || ok; o_infos := s'; o_hooks := [] |})
   end.
 
-Fixpoint run (s : state) (ops : list op) : state * list out :=
+Fixpoint run_v (guard : bool) (s : state) (ops : list op) : state * list out :=
   match ops with
   | [] => (s, [])
-  | o :: r => let '(s1, x) := step s o in let '(s2, xs) := run s1 r in (s2, x :: xs)
+  | o :: r => let '(s1, x) := step_v guard s o in let '(s2, xs) := run_v guard s1 r in (s2, x :: xs)
   end.
+
+Notation step := (step_v true).
+Notation run := (run_v true).
 
 (** MultiEpochHooks with [k] registered hooks: every call reaches hook 0, 1, …, k-1 in slice order *)
 Definition fanout (k : nat) (l : list hook) : list (nat * hook) :=
@@ -124,6 +185,8 @@ Definition step_f (g : trigger) (sl : state * nat) (o : op) : (state * nat) * ou
       | O => ((s', lf), {| o_ok := true; o_infos := s'; o_hooks := l |})
       end
   | Add ct ch a => let '(s', ok) := add_epoch s ct ch a in ((s', lf), {| o_ok := ok; o_infos := s'; o_hooks := [] |})
+  | Init via ct ch gs =>
+      let '(s', ok) := init_genesis true s ct ch gs in ((s', lf), {| o_ok := via || ok; o_infos := s'; o_hooks := [] |})
   end.
 
 Fixpoint run_f (g : trigger) (sl : state * nat) (ops : list op) : (state * nat) * list out :=
